@@ -35,7 +35,10 @@ def T():
 
 def mk(name, aliased, how="as_", alias=None):
     n, b = ZOO_BY[name]
-    t = b([T().field("c%d" % i) for i in range(max(n, 1))])
+    flds = [T().field("c%d" % i) for i in range(max(n, 1))]
+    if aliased and how == "ctor":
+        return b(flds, alias=alias or ALIAS)  # the alias given to the constructor (alias=...) instead of as_()
+    t = b(flds)
     if aliased:
         t = t.as_(alias or ALIAS)
     return t
@@ -114,6 +117,9 @@ PG_POS = {
 REF_POS = {
     "groupby_same": lambda Q, x, x2: Q.from_(T()).select(x, FN.Count("*").as_("n")).groupby(x2),
     "orderby_same": lambda Q, x, x2: Q.from_(T()).select(x).orderby(x2),
+    # the aliased item is not the first aliased item of the select list
+    "groupby_same_second": lambda Q, x, x2: Q.from_(T()).select(FN.Count("*").as_("n"), (T().k + 7).as_("other9"), x).groupby(x2),
+    "orderby_same_second": lambda Q, x, x2: Q.from_(T()).select((T().k + 7).as_("other9"), x).orderby(x2),
     "setop_orderby_same": lambda Q, x, x2: Q.from_(T()).select(x).union(Q.from_(Table("u")).select(Table("u").k)).orderby(x2),
     # the alias is defined only by the SECOND operand: result columns are named by the first, so it is undefined
     # the select list lost the item that defined the alias (table.* / * replaces the table's columns)
@@ -152,6 +158,9 @@ def expand(chunk):
                 yield {"d": d, "term": name, "pos": pos}
         for pos in REF_POS:
             yield {"d": d, "term": name, "pos": pos, "ref": True}
+        if getattr(ZOO_BY[name][1], "takes_alias", False):
+            for pos in ("select", "select_first", "where_cmp_l", "func_arg", "orderby_unrelated"):
+                yield {"d": d, "term": name, "pos": pos, "how": "ctor"}
         n_slots = max(ZOO_BY[name][0], 1)
         for i in range(n_slots):
             for pos in ("select", "select_first", "insert_value"):
@@ -339,6 +348,16 @@ def run_case(case):
             # printed after the item's own expression is the operand-printing defect, reported at the operand positions
             refs = [i for i in ap if i > cut and ((toks[i - 1].kind == "WORD" and toks[i - 1].value == "BY")
                                                   or (toks[i - 1].kind == "OP" and toks[i - 1].text == ","))]
+            if pos.endswith("_second") and not refs and not sql.startswith("!") and not any(i > cut for i in ap):
+                # the dialect prints the expression instead of the alias (SQL Server / Oracle GROUP BY): it must be this item's
+                # expression, i.e. the statement grouped / ordered by the un-aliased term
+                try:
+                    plain = prog.render(REF_POS[pos](Q, mk(name, True), mk(name, False)), d, param=False)[0]
+                except Exception:
+                    plain = None
+                if plain is not None and "?" not in sql and "%s" not in sql and "$1" not in sql and sql != plain:
+                    res.violate("C12|%s|%s|reference-resolved-to-other-item" % (cls_of(name, term), pos),
+                                "%s BY of an aliased select item prints another item's expression" % kw, dialect=d, term=name, sql=sql, expected=plain)
             if refs and not defs:
                 res.violate("C12|%s|%s|reference-to-undefined-alias" % (cls_of(name, term), pos),
                             "%s BY names the alias although the select list does not define it" % kw, dialect=d, term=name, sql=sql)
@@ -347,8 +366,9 @@ def run_case(case):
                             dialect=d, term=name, sql=sql)
         return res
     kind, fn = POS.get(pos) or PG_POS[pos]
+    how = case.get("how", "as_")
     try:
-        a = fn(Q, mk(name, True))
+        a = fn(Q, mk(name, True, how=how))
         b = fn(Q, mk(name, False))
         if a is None:
             return res  # position takes criteria only
@@ -364,7 +384,7 @@ def run_case(case):
     res.nontrivial = 1
     term = mk(name, True)
     c = cls_of(name, term)
-    res.states.append(h64(repr((name, pos))))
+    res.states.append(h64(repr((name, pos, how))))
     for (sa, sb), mode in zip(zip(render_both(a, d), render_both(b, d)), ("inline", "param")):
         res.transitions += 2
         res.outcomes.append(h64(sa))
